@@ -8,7 +8,16 @@
      M <hid> <idx> <cand> <out tokens>      (after the first mismatch of proj "all") what the model produces
      T <hid> <idx> <tag>                    a check of the trace oracle (Track.v) failed at event idx
      I <hid> <idx> <tag>                    C07 inertness check failed
-   Only parsing and printing happen here; every decision is made by extracted Coq code. *)
+   Only parsing and printing happen here; every decision is made by extracted Coq code.
+
+   "via service" histories (a line `V service` after the C line; harness/seqdiff executed the history through the real
+   grpc.Service): the error token of a response / completion is `code:<ErrorCode name>`; both that code and the model's
+   error value are compared modulo Gen.ErrTables.srv_code (replay_history_svc, track_failures_svc of Extract/SeqExtract.v,
+   where the choice is documented). Additional lines, only for such histories:
+     S <hid> <idx> <what>                   the harness saw something the response format has no place for (`O svcbad <what>`:
+                                            the handler returned an error / no message, or echoed another name)
+   Histories without the V line are judged exactly as before.
+   usage: seqdriver --code-classes         prints `K <code name> <error values of that class ...>` and `K! tables-recognised 0|1` *)
 type ostring = string
 open Seqmodel
 
@@ -42,12 +51,28 @@ let err_of_tok (t : ostring) : err option =
   match List.assoc_opt t err_names with Some e -> Some e | None -> Some EOther
 let tok_of_err = function None -> "~" | Some e -> ocaml_string (err_name_b e)
 
+(* ---- via service: error CODES (mapping decided by the extracted srv_code / code_repr / code_of_name_b) ---- *)
+exception Bad of ostring
+let bytes_of_ocaml (s : ostring) : byte list = List.init (String.length s) (fun i -> byte_tbl.(Char.code s.[i]))
+let svc = ref false
+let err_of_code_tok (t : ostring) : err option =
+  if t = "~" then None else
+  if String.length t > 5 && String.sub t 0 5 = "code:" then begin
+    let name = String.sub t 5 (String.length t - 5) in
+    match code_of_name_b (bytes_of_ocaml name) with
+    | None -> raise (Bad ("unknown-code:" ^ name))
+    | Some c -> (match code_repr c with Some e -> Some e | None -> raise (Bad ("code-without-error-value:" ^ name)))
+  end else raise (Bad ("service-error-token:" ^ t))
+let code_tok_of_err = function None -> "~" | Some e -> "code:" ^ ocaml_string (code_name_b (srv_code e))
+(* responses and completions came through the service; the admin socket did not *)
+let resp_err_of_tok t = if !svc then err_of_code_tok t else err_of_tok t
+let resp_tok_of_err e = if !svc then code_tok_of_err e else tok_of_err e
+
 let optz t = if t = "~" then None else Some (z_of_int (int_of_string t))
 let optstr t = if t = "~" then None else Some (str_of_hex t)
 let bool_of t = t = "1"
 
 (* ---- parsing ---- *)
-exception Bad of ostring
 
 let parse_event (t : ostring list) : event =
   match t with
@@ -80,8 +105,8 @@ let rec take_strs n toks acc =
 
 let parse_resp (t : ostring list) : resp =
   match t with
-  | ["lock"; l; key; e] -> RLock (bool_of l, str_of_hex key, err_of_tok e)
-  | ["unl"; u; e] -> RUnlock (bool_of u, err_of_tok e)
+  | ["lock"; l; key; e] -> RLock (bool_of l, str_of_hex key, resp_err_of_tok e)
+  | ["unl"; u; e] -> RUnlock (bool_of u, resp_err_of_tok e)
   | ["blocked"] -> RBlocked
   | _ -> raise (Bad ("resp: " ^ String.concat " " t))
 
@@ -89,7 +114,7 @@ let parse_out (t : ostring list) : out =
   match t with
   | "r" :: rest -> OResp (parse_resp rest)
   | "w" :: wid :: at :: l :: key :: e :: [] ->
-      OWaiter (nat_of_int (int_of_string wid), z_of_int (int_of_string at), RLock (bool_of l, str_of_hex key, err_of_tok e))
+      OWaiter (nat_of_int (int_of_string wid), z_of_int (int_of_string at), RLock (bool_of l, str_of_hex key, resp_err_of_tok e))
   | "listing" :: n :: rest -> let (cs, _) = take_clocks (int_of_string n) rest [] in OListing cs
   | ["file"; "none"] -> OFile None
   | "file" :: n :: rest ->
@@ -115,14 +140,14 @@ let parse_out (t : ostring list) : out =
 (* ---- printing ---- *)
 let tok_of_clock c = Printf.sprintf "%s %s %d" (hex_of_str c.cl_name) (hex_of_str c.cl_key) (int_of_z c.cl_size)
 let tok_of_resp = function
-  | RLock (l, k, e) -> Printf.sprintf "lock %d %s %s" (if l then 1 else 0) (hex_of_str k) (tok_of_err e)
-  | RUnlock (u, e) -> Printf.sprintf "unl %d %s" (if u then 1 else 0) (tok_of_err e)
+  | RLock (l, k, e) -> Printf.sprintf "lock %d %s %s" (if l then 1 else 0) (hex_of_str k) (resp_tok_of_err e)
+  | RUnlock (u, e) -> Printf.sprintf "unl %d %s" (if u then 1 else 0) (resp_tok_of_err e)
   | RBlocked -> "blocked"
 let tok_of_out = function
   | OResp r -> "r " ^ tok_of_resp r
   | OWaiter (w, a, r) ->
       (match r with
-       | RLock (l, k, e) -> Printf.sprintf "w %d %d %d %s %s" (int_of_nat w) (int_of_z a) (if l then 1 else 0) (hex_of_str k) (tok_of_err e)
+       | RLock (l, k, e) -> Printf.sprintf "w %d %d %d %s %s" (int_of_nat w) (int_of_z a) (if l then 1 else 0) (hex_of_str k) (resp_tok_of_err e)
        | _ -> Printf.sprintf "w %d %d ?" (int_of_nat w) (int_of_z a))
   | OListing l -> Printf.sprintf "listing %d %s" (List.length l) (String.concat " " (List.map tok_of_clock l))
   | OFile None -> "file none"
@@ -157,7 +182,14 @@ let projections = [
 
 let split_ws s = List.filter (fun x -> x <> "") (String.split_on_char ' ' s)
 
+let print_code_classes () =
+  Printf.printf "K! tables-recognised %d\n" (if svc_tables_ok then 1 else 0);
+  List.iter (fun c ->
+    Printf.printf "K %s %s\n" (ocaml_string (code_name_b c)) (String.concat " " (List.map (fun e -> ocaml_string (err_name_b e)) (code_class c))))
+    all_codes
+
 let () =
+  if Array.length Sys.argv > 1 && Sys.argv.(1) = "--code-classes" then (print_code_classes (); exit 0);
   let file = Sys.argv.(1) in
   let projs = if Array.length Sys.argv > 2 then Array.to_list (Array.sub Sys.argv 2 (Array.length Sys.argv - 2)) else ["all"] in
   let ic = open_in file in
@@ -166,6 +198,7 @@ let () =
   let evs : (event * out list) list ref = ref [] in       (* reversed *)
   let cur : (event * out list) option ref = ref None in   (* outs reversed *)
   let bad = ref None in
+  let anomalies : (int * ostring) list ref = ref [] in     (* via service: `O svcbad ...` lines, reversed *)
   let flush_event () =
     (match !cur with Some (e, os) -> evs := (e, List.rev os) :: !evs | None -> ());
     cur := None in
@@ -179,22 +212,27 @@ let () =
          match List.assoc_opt pn projections with
          | None -> Printf.printf "B %s unknown-projection-%s\n" !hid pn
          | Some p ->
-           (match replay_history p !cfg h with
+           (match (if !svc then replay_history_svc p !cfg h else replay_history p !cfg h) with
             | None -> Printf.printf "R %s %s ok\n" !hid pn
             | Some (i, outs) ->
                 Printf.printf "R %s %s mismatch %d\n" !hid pn (int_of_nat i);
                 if pn = "all" || List.length projs = 1 then
                   List.iteri (fun c os -> List.iter (fun o -> Printf.printf "M %s %d %d %s\n" !hid (int_of_nat i) c (tok_of_out o)) os;
                                           if os = [] then Printf.printf "M %s %d %d (no output)\n" !hid (int_of_nat i) c) outs)) projs;
-       List.iter (fun (i, t) -> Printf.printf "T %s %d %s\n" !hid (int_of_nat i) (ocaml_string t)) (track_failures_b !cfg h);
+       List.iter (fun (i, t) -> Printf.printf "T %s %d %s\n" !hid (int_of_nat i) (ocaml_string t))
+         (if !svc then track_failures_svc_b !cfg h else track_failures_b !cfg h);
+       List.iter (fun (i, w) -> Printf.printf "S %s %d %s\n" !hid i w) (List.rev !anomalies);
        List.iter (fun (i, t) -> Printf.printf "I %s %d %s\n" !hid (int_of_nat i) (ocaml_string t)) (inert_failures_b h));
-    evs := []; cur := None; bad := None in
+    evs := []; cur := None; bad := None; anomalies := []; svc := false in
   (try
      while true do
        let line = input_line ic in
        match split_ws line with
        | [] -> ()
-       | "H" :: id :: _ -> hid := id
+       | "H" :: id :: _ -> hid := id; svc := false
+       | ["V"; "service"] -> svc := true
+       | "O" :: "svcbad" :: what when !svc ->
+           anomalies := (List.length !evs, String.concat "_" (if what = [] then ["?"] else what)) :: !anomalies
        | ["C"; nc; f; gci; gcm; dlt] ->
            cfg := { c_noclear = bool_of nc; c_file = bool_of f; c_gc_interval = z_of_int (int_of_string gci);
                     c_gc_minidle = z_of_int (int_of_string gcm); c_default_lt = z_of_int (int_of_string dlt) }
